@@ -237,11 +237,22 @@ func emptyOf(seq Sort) Term { return mk(seq, "empty_%s", seq.sfx()) }
 func nilOf(seq Sort) Term   { return emptyOf(seq) }
 
 
+type stoRec struct{ base, idx, val Term }
+
+// stoInfo remembers the structure of store terms so that a read right after a write of the same
+// (syntactically identical) index returns the written term itself
+var stoInfo = map[string]stoRec{}
+
 func sel(arr Term, idx Term, res Sort) Term {
+	if r, ok := stoInfo[arr.S]; ok && r.idx.S == idx.S && r.val.Sort == res {
+		return Term{S: r.val.S, Sort: res}
+	}
 	return mk(res, "(select %s %s)", arr.S, idx.S)
 }
 func sto(arr Term, idx Term, v Term) Term {
-	return Term{S: fmt.Sprintf("(store %s %s %s)", arr.S, idx.S, v.S), Sort: arr.Sort}
+	t := Term{S: fmt.Sprintf("(store %s %s %s)", arr.S, idx.S, v.S), Sort: arr.Sort}
+	stoInfo[t.S] = stoRec{arr, idx, v}
+	return t
 }
 
 // ---------- prelude ----------
